@@ -1554,7 +1554,7 @@ impl Ca {
 			Ok(c) => {
 				self.issued.push(IssuedCert {
 					order: o,
-					pem: c.pem,
+					pem: if self.knobs.pem_crlf { c.pem.replace('\n', "\r\n") } else { c.pem },
 					leaf_pubkey_der: facts.pubkey_der.clone(),
 					not_after: c.not_after,
 					not_before: c.not_before,
